@@ -28,15 +28,26 @@ def main():
     ap.add_argument("--checks", nargs="*", default=None, help='each: "Cxx --tier quick --env Y"')
     ap.add_argument("--needs", default="")
     ap.add_argument("--what", default="")
+    ap.add_argument("--reeval", action="store_true",
+                    help="re-evaluate an already stored seeded change (worktree argument is ignored); keeps what/needs/tests")
     a = ap.parse_args()
     sd = os.path.join(ROOT, "seeded", a.id)
     os.makedirs(sd, exist_ok=True)
-    for f in ("patch.diff", "demo.py"):
-        shutil.copy(os.path.join(a.worktree, f), os.path.join(sd, f))
+    old = {}
+    if a.reeval:
+        old = json.load(open(os.path.join(sd, "meta.json")))
+        a.what, a.needs = old.get("what", a.what), old.get("needs", a.needs)
+    else:
+        for f in ("patch.diff", "demo.py"):
+            shutil.copy(os.path.join(a.worktree, f), os.path.join(sd, f))
     scratch = f"/dev/shm/vf-seed/{a.id}"
     shutil.rmtree(scratch, ignore_errors=True)
     os.makedirs(scratch)
     meta = {"id": a.id, "property": a.prop, "what": a.what, "needs": a.needs, "ran": {}}
+    if old.get("ran", {}).get("repo_tests"):
+        meta["ran"]["repo_tests"] = old["ran"]["repo_tests"]
+    if old.get("history"):
+        meta["history"] = old["history"]
     try:
         subprocess.check_call(["rsync", "-a", "--exclude", ".git", "--exclude", "docs", "--exclude", "__pycache__",
                                "/repo/", scratch + "/"])
